@@ -42,6 +42,8 @@ def _slice(args):
     seed, per, k, nslices, exhaustive_len = args
     P = lib.import_repo()
     import bundled
+    import pollute
+    other, look = pollute.pollute(P)   # other grammars redefining core / meta names must not change the reader
     rng = random.Random(seed * 1000 + k)
     sg = bundled.SentenceGen(P, rng, maxlen=70)
     g = c04.Gen(rng)
@@ -65,6 +67,7 @@ def _slice(args):
             for n in range(0, exhaustive_len + 1):
                 for tup in itertools.product(SYMS, repeat=n):
                     frags.add("".join(tup))
+        pollute.preparse(P, look, [s for s in sorted(frags) if len(s) < 12][:200])
         for s in sorted(frags):
             offs = range(len(s) + 1) if len(s) <= 6 else sorted({0, rng.randint(0, len(s)), len(s)})
             for i in offs:
